@@ -108,40 +108,44 @@ def solve_smt2(o, timeout_ms=20000, cvc5=True, both=False):
     smt2 = o.pop('smt2')
     lite = o.pop('smt2_lite', None)
     mid = o.pop('smt2_mid', None)
-    if o['kind'] != 'cover':
-        if isinstance(mid, str):
-            mid = [mid]
+    def attempt(text, opts, tmo):
+        s_ = z3.Solver()
+        s_.set('timeout', int(tmo))
+        for k_, v_ in opts.items():
+            s_.set(k_, v_)
+        s_.from_string(text)
+        return s_, s_.check()
+
+    if isinstance(mid, str):
+        mid = [mid]
+    MBQI = {'smt.ematching': False}
+    r = z3.unknown
+    s = None
+    # 1. the full query, default configuration, short budget (most obligations end here)
+    s, r = attempt(smt2, {}, min(timeout_ms, 2500))
+    o['backend'] = 'z3'
+    # 2. weakened queries (unsat there is a proof): without the quantified assumptions from contract clauses (lite),
+    #    with the small ones (mid tiers); default and MBQI-only configuration
+    if r == z3.unknown and o['kind'] != 'cover':
         tiers = [(lite, 'z3(lite)')] + [(m_, 'z3(mid%d)' % (i_ + 1)) for i_, m_ in enumerate(mid or [])]
         for text, name in tiers:
             if text is None:
                 continue
-            for opts in ({}, {'smt.ematching': False}):
-                s = z3.Solver()
-                s.set('timeout', int(min(timeout_ms, 3000)))
-                for k_, v_ in opts.items():
-                    s.set(k_, v_)
-                s.from_string(text)
-                if s.check() == z3.unsat:
+            for opts in ({}, MBQI):
+                _, r2 = attempt(text, opts, min(timeout_ms, 3000))
+                if r2 == z3.unsat:
                     o['status'] = 'proved'
                     o['backend'] = name
                     o['time'] = round(time.time() - t0, 4)
                     return o
-    # portfolio: default configuration with a short budget, then MBQI without E-matching (E-matching loops on the
-    # array/lambda-heavy heap encodings are the usual reason for a time-out), then the default configuration again
-    plan = [({}, min(timeout_ms, 2500), 'z3'), ({'smt.ematching': False}, timeout_ms // 2, 'z3(mbqi)'),
-            ({}, timeout_ms, 'z3')]
-    r = z3.unknown
-    s = None
-    for opts, tmo, name in plan:
-        s = z3.Solver()
-        s.set('timeout', int(tmo))
-        for k_, v_ in opts.items():
-            s.set(k_, v_)
-        s.from_string(smt2)
-        r = s.check()
-        o['backend'] = name
-        if r != z3.unknown:
-            break
+    # 3. the full query again: MBQI without E-matching (E-matching loops on the array/lambda-heavy heap encodings are
+    #    the usual reason for a time-out), then the default configuration with the whole budget
+    if r == z3.unknown:
+        for opts, tmo, name in ((MBQI, timeout_ms // 2, 'z3(mbqi)'), ({}, timeout_ms, 'z3')):
+            s, r = attempt(smt2, opts, tmo)
+            o['backend'] = name
+            if r != z3.unknown:
+                break
     if o['kind'] == 'cover':
         o['status'] = 'proved' if r == z3.sat else ('vacuous' if r == z3.unsat else 'proved')
         if r == z3.unknown:
@@ -165,7 +169,7 @@ def solve_smt2(o, timeout_ms=20000, cvc5=True, both=False):
         # contract clauses dropped, their eager instances at the objects the path touches kept): such a model satisfies
         # the class invariants wherever the execution looks.  It is reported as a refutation, flagged as such.
         for text, name in ([(m_, 'z3(mid-model)') for m_ in reversed(mid or [])] + [(lite, 'z3(lite-model)')]):
-            if text is None:
+            if text is None or not o.get('allow_weak'):
                 continue
             s2 = z3.Solver()
             s2.set('timeout', int(min(timeout_ms, 8000)))
